@@ -7,11 +7,19 @@
 #   trivia   every program of a token-level grammar (statements of expression depth <= 2 over a reduced operand pool,
 #            sequences of <= 3 statements) decorated at every token gap with every LEGAL trivia choice (nothing, spaces,
 #            tab, newline / blank line / comment only inside brackets or at a statement end, line continuation between
-#            the tokens of a statement; never an empty gap between two word tokens), with <= 0, 1, 2 non-default gaps;
+#            the tokens of a statement or before its end (the statement goes on onto an empty line, also as the unterminated
+#            last line of the file); never an empty gap between two word tokens), with <= 0, 1, 2 non-default gaps;
 #   illformed the same skeletons with a newline-bearing trivia in the middle of a statement OUTSIDE brackets: kept only
 #            if the reference parser rejects the text while the real parser accepts it; judged with the real parser as its
 #            own witness and reported under C16:illformed:* keys only (the family shrinks as the parser gets stricter);
 #   strings  every string body <= 3 (thorough 4) over the C01-X4 alphabet as '..', '''..''', f'..', f'''..''';
+#   spellings every string body of <= 3 atoms, an atom being the identifier character a or one of @ ' \ newline (the
+#            characters a literal simplification depends on) in one of its spellings: itself, its one-letter escape, \ooo,
+#            \xhh, \uxxxx, \Uxxxxxxxx, \N{name}; in the same 4 quoting forms (what counts is the string DENOTED: the decoded
+#            value, and whether an @id@ placeholder of an f-string is substituted in it); + the literals of <= 1 atom as the
+#            only element of a call / method / keyword / array / dict / parentheses under the comma and layout options;
+#   comment-text every character below U+0100 and every Unicode space/line/paragraph separator (not LF, CR) inside a
+#            comment, in 3 positions of its text x 6 comment places;
 #   longargs argument lists (call, method, array, dict, nested, files(), parenthesised and/or chains) whose one-line
 #            length is max_line_length-1, =, +1 for max_line_length in {20, 40, 80}, with/without trailing comma;
 #   configs  all 2^9 boolean options x max_line_length {20,80} x indent_by {2 spaces, tab, empty} x end_of_line {lf, crlf}
@@ -1942,6 +1950,12 @@ def main():
     ck.sample({'longargs': gen_longargs([20])[5], 'formatted@20': real_format(gen_longargs([20])[5], {'max_line_length': 20})})
     ck.assume('the reference reading of a program is E6 (verif.reflang), written from Syntax.md; literal simplifications are '
               'accepted exactly when the denoted string value is unchanged')
+    ck.assume("a string literal denotes its decoded value (escapes of Syntax.md in '..' and f'..', none in '''..'''); an f-string "
+              "additionally denotes the substitution of every @id@ of that decoded value, so f'\\x40a\\x40' substitutes a and may not "
+              "lose its f, while f'\\@' may; of the Unicode database only COMMERCIAL AT, APOSTROPHE, REVERSE SOLIDUS and LINE FEED are "
+              "read by the reference, any other \\N{name} makes a case unspecified")
+    ck.assume('a comment is the text from # to the end of the line (LF); a lone CR inside a comment is not enumerated (line ending '
+              'or comment text is not stated), trailing whitespace of a comment is not compared')
     ck.assume('end_of_line has no effect on Formatter.format() (it is applied by the writer in run()); it is exercised through '
               'the configuration files of the product and through the CLI part')
     ck.assume('inputs the reference parser rejects but the real parser accepts are judged only by the real parser itself and '
@@ -1950,7 +1964,9 @@ def main():
               skipped=dict(sorted(skips.items())), fixed_points=fixed_points, changed_by_formatter=changed,
               rule='every decoration with <= 2 non-default token gaps (legal trivia alphabet per gap kind) of every statement of the '
                    'depth<=2 grammar / statement sequences <= 3 / skeleton set; every string body <= %d over the X4 alphabet in 4 '
-                   'quoting forms; every boundary-length argument list; every configuration of the option product on the quick '
+                   'quoting forms; every string body <= 3 atoms over {a} + {@, quote, backslash, newline} x {literal, one-letter '
+                   'escape, octal, \\x, \\u, \\U, \\N{name}} in 4 quoting forms (+ as single container element under the comma '
+                   'options); every Latin-1 / Unicode separator character in a comment x 3 positions x 6 places; every boundary-length argument list; every configuration of the option product on the quick '
                    'program set; every corpus file x 4 configurations; CLI status vs bytes. Each case = 2 real format runs judged by '
                    'the E6 parser (tree modulo trivia/parentheses/documented simplifications, comment sequence, idempotence). '
                    'distinct_nontrivial = distinct (line-count change, comma change, input features, literal-kind change) classes '
